@@ -34,6 +34,7 @@ def bounds(tier):
         "conditions": 2 if tier == "quick" else 3,
         "dtypes": ["float64"] + (["float32 (representative leaves + depth-1 of them)"] if tier == "quick" else ["float32 (all leaf configurations, one per (kind, option, child class) at depth 1)"]),
         "factories": "5 factories x invert T/F x cond None/2 x 2 layers",
+        "configured_inverter": "BlockAutoregressiveNetwork dim 1-3 x cond x depth 1-2 x AutoregressiveBisectionInverter(tol in {1e-2,1e-3,1e-5}, bracket (-10,10)|(-0.5,0.5)) x 2 levels x 12 points incl. the flat tails",
         "exhaustive_within_bounds": True,
     }
 
@@ -60,6 +61,12 @@ def enumerate_cases(tier, seed):
             for cond in (None, 2):
                 cases.append({"id": f"f64|factory|{f}|invert={int(inv)}|cond={cond}", "factory": f, "invert": inv,
                               "cond": cond, "x64": True, "tier": tier, "seed": seed})
+    # numerically inverted bijections with a CONFIGURED search tolerance / bracket (the statement's "or the configured search tolerance")
+    for dim in (1, 2, 3):
+        for cond in (None, 2):
+            for tol in (1e-2, 1e-3, 1e-5):
+                cases.append({"id": f"f64|inverter|dim={dim}|cond={cond}|tol={tol:g}", "inverter": True, "dim": dim, "cond": cond, "tol": tol,
+                              "x64": True, "tier": tier, "seed": seed})
     # expensive first
     cases.sort(key=lambda c: (0 if "factory" in c else 1, -len(c["id"])))
     return cases
@@ -191,11 +198,81 @@ def judge_roundtrip(b, ii, X, c, direction, dtype, consts, has_conditioner=False
     }
 
 
+def _run_inverter(case):
+    """BlockAutoregressiveNetwork with AutoregressiveBisectionInverter(tol=t, lower, upper): inverse(transform(x)) must come back
+    within the configured tolerance, propagated through the triangular Jacobian: err_0 <= tol, err_i <= tol + sum_j<i |J_ij| err_j / J_ii."""
+    import equinox as eqx
+    import jax
+    import jax.numpy as jnp
+    import jax.random as jr
+
+    import flowjax.bijections as B
+    from flowjax.bisection_search import AutoregressiveBisectionInverter
+    from mc.params import perturb
+
+    dim, cond, tol, seed = case["dim"], case["cond"], case["tol"], case["seed"]
+    viols, outcomes = [], {}
+    transitions = nontrivial = 0
+    digest = hashlib.sha1()
+    max_ratio = 0.0
+    sample = None
+    pts = [-20.0, -6.0, -3.5, -1.0, -0.2, 0.0, 0.3, 1.7, 3.0, 4.5, 8.0, 30.0]  # LeakyTanh(3) tails (slope ~0.01) and centre
+    X = np.stack([np.roll(np.asarray(pts), 5 * j)[: len(pts)] for j in range(dim)], axis=1)
+    c = None if cond is None else jnp.asarray([0.4, -1.1])
+    for depth in (1, 2):
+        for (lo, hi) in ((-10.0, 10.0), (-0.5, 0.5)):
+            for level in (0, 1):
+                inv = AutoregressiveBisectionInverter(lower=lo, upper=hi, tol=tol)
+                b = B.BlockAutoregressiveNetwork(jr.PRNGKey(seed + 3), dim=dim, cond_dim=cond, depth=depth, block_dim=2, inverter=inv)
+                bp = perturb(b, level, seed, scale=0.5)
+                # the bracket is a leaf of the model: keep the configured one
+                b = eqx.tree_at(lambda m: (m.inverter.lower, m.inverter.upper), bp, (b.inverter.lower, b.inverter.upper))
+                f = eqx.filter_jit(lambda b, X: jax.vmap(lambda x: (b.transform(x, c), b.inverse(b.transform(x, c), c), b.inverse(b.transform_and_log_det(x, c)[0], c),
+                                                                     jax.jacfwd(lambda x: b.transform(x, c))(x)))(X))
+                Y, Xr, Xr2, J = (np.asarray(a, float) for a in f(b, jnp.asarray(X)))
+                digest.update(np.ascontiguousarray(np.round(Xr, 6)).tobytes())
+                for n in range(X.shape[0]):
+                    transitions += 1
+                    nontrivial += 1
+                    if not (np.isfinite(Y[n]).all() and np.isfinite(J[n]).all() and np.all(np.diag(J[n]) > 1e-6)):
+                        outcomes["skipped-flat-or-nonfinite"] = outcomes.get("skipped-flat-or-nonfinite", 0) + 1
+                        continue
+                    bound = np.zeros(dim)
+                    for i in range(dim):
+                        bound[i] = 1.05 * tol + 1e-9 * (1 + abs(X[n, i])) + (1.5 * sum(abs(J[n, i, j]) * bound[j] for j in range(i)) / J[n, i, i] + 0.25 * tol if i else 0.0)  # slack for the curvature over an O(tol) step
+                    for nm, xr in (("inverse(transform(x))", Xr[n]), ("inverse(transform_and_log_det(x)[0])", Xr2[n])):
+                        err = np.abs(xr - X[n])
+                        ratio = float(np.max(err / bound))
+                        max_ratio = max(max_ratio, ratio if np.isfinite(ratio) else 0.0)
+                        if not np.all(err <= bound):
+                            i = int(np.argmax(err / bound))
+                            viols.append({"sig": f"C01|BNAF+inverter|f64|configured-tol|coord{'0' if i == 0 else '>0'}",
+                                          "msg": f"BlockAutoregressiveNetwork(dim={dim}, cond={cond}, depth={depth}) with AutoregressiveBisectionInverter(lower={lo}, upper={hi}, tol={tol:g}) level {level}: "
+                                                 f"{nm} at x={X[n].tolist()} returns {xr.tolist()}: coordinate {i} is off by {err[i]:.3g} > {bound[i]:.3g} (configured tolerance propagated through the triangular Jacobian)",
+                                          "detail": {"x": X[n].tolist(), "depth": depth, "interval": [lo, hi], "level": level}})
+                            break
+                o = f"inverter:depth={depth}"
+                outcomes[o] = outcomes.get(o, 0) + 1
+                if sample is None:
+                    sample = {"x": X[3].tolist(), "inverse(transform(x))": Xr[3].tolist(), "tol": tol}
+    seen, out = set(), []
+    for v in viols:
+        if v["sig"] not in seen:
+            seen.add(v["sig"])
+            v["msg"] += f"  [{sum(1 for w in viols if w['sig'] == v['sig'])} occurrences]"
+            out.append(v)
+    return {"transitions": transitions, "traces": transitions, "states": 1, "nontrivial": nontrivial, "violations": out, "outcomes": outcomes,
+            "skipped": {}, "max_ratio": max_ratio, "digest": digest.hexdigest(), "sample": sample}
+
+
 def run_case(case):
     import jax
 
     from mc import battery as bt
     from mc import grammar as g
+
+    if case.get("inverter"):
+        return _run_inverter(case)
 
     dtype = bt.np_dtype()
     tier, seed = case["tier"], case["seed"]
